@@ -72,6 +72,11 @@ def fixed_corpus(u):
                                   Field(4, ('map', ('string',), ('ptr', ('struct', 'Rec'))), 'optional')]))
     add('structs', Struct('MutA', [Field(1, ('ptr', ('struct', 'MutB')), 'optional'), Field(2, ('string',))]))
     add('structs', Struct('MutB', [Field(1, ('list', ('ptr', ('struct', 'MutA')))), Field(2, ('i64',), 'required')]))
+    # recursion through containers of by-value structs
+    add('structs', Struct('RecV', [Field(1, ('i32',)), Field(2, ('ptr', ('struct', 'RecV')), 'optional'),
+                                   Field(3, ('list', ('struct', 'RecV'))),
+                                   Field(4, ('map', ('string',), ('struct', 'RecV')), 'optional'),
+                                   Field(5, ('list', ('list', ('struct', 'RecV'))), 'optional')]))
     add('structs', Struct('RecKey', [Field(1, ('map', ('ptr', ('struct', 'RecKey')), ('i32',)), 'optional'), Field(2, ('i8',))]))
 
     # field ids on both sides of every boundary
@@ -186,6 +191,16 @@ def spellings(u, add):
            Field(0, ('struct', 'Leaf'), name='Leaf', anonymous=True, ignored=True, tag='frugal:"41,default,Leaf"'),
            Field(0, ('string',), name='JSONOnly', ignored=True, tag='json:"x"')]
     mk('SpIgnored', can, extra=ign)
+    # ids with leading zeros; float64 and pointer-to-struct map keys; pointer to binary
+    add('spell', Struct('SpLeadZero', [Field(7, ('i32',), tag='frugal:"007,default,i32"'),
+                                       Field(8, ('string',), 'optional', tag='thrift:"nm,0008,optional"'),
+                                       Field(9, ('map', ('double',), ('i32',))),
+                                       Field(10, ('ptr', ('binary',)), 'optional')]))
+    # an ignored field may have any Go type
+    add('spell', Struct('SpIgnoredUnsup', [Field(1, ('i32',)),
+                                           Field(0, ('i32',), go_text='uint32', model_text='(unsup 5)', name='Count', ignored=True),
+                                           Field(0, ('i32',), go_text='chan int', model_text='(unsup 18)', name='hiddenCh', exported=False, ignored=True,
+                                                 tag='frugal:"3,default,i32"')]))
 
 
 def invalid_defs(u, add):
